@@ -269,6 +269,10 @@ def run_case(sh, case, prop, api='func', driver='generated', nontrivial=None, to
         sh.violate(case, v, driver)
     delta = {k: attach.COUNTS[k] - before.get(k, 0) for k in attach.COUNTS if attach.COUNTS[k] != before.get(k, 0)}
     nt = bool(nontrivial(case, df, delta)) if (nontrivial and df is not None) else False
+    if df is not None and case.get('burst_method') == 'amp' and 'burst_fraction' in df.columns and 'is_burst' in df.columns:
+        t_ = (case.get('threshold_kwargs') or {}).get('burst_fraction_threshold', 1)
+        if bool(((df['burst_fraction'].to_numpy() >= t_) & ~df['is_burst'].to_numpy().astype(bool)).any()):
+            sh.note('amp_tables_where_the_run_filter_cleared_cycles')
     sh.note('family:' + str(case.get('family')))
     sh.note('cell:%s:%s:%s' % (case.get('center_extrema'), case.get('burst_method'), api))
     sh.case_done(case, nt, sample=sample_of(case))
